@@ -1,6 +1,7 @@
 import XmppModel.Model.Styling
 import XmppModel.Lemmas.Styling
 import XmppModel.Lemmas.StylingScanner
+import XmppModel.Lemmas.StylingStyle
 import XmppModel.Generated.C17
 /-!
 # C17 — the styling decoder is lossless, chunk-independent and well-bracketed
@@ -99,5 +100,135 @@ theorem C17_limit_witness :
 
 example : (decode none ⟨[1, 1, 1], true⟩ [gt, 0x20, 0x61]).1 =
     some [⟨[gt, 0x20], BlockQuote ||| BlockQuoteStart, 1, none⟩, ⟨[0x61], BlockQuote, 1, none⟩] := by decide
+
+/-! ### Style bookkeeping
+
+`m.Has c` : the mask `m` has (some bit of) `c`. -/
+
+/-- `m` has the (single-bit) style constant `c` -/
+def Has (m c : Style) : Prop := m &&& c ≠ 0
+
+/-- "a start or end directive bit implies its style bit" for the block styles and for the
+start directives of all spans -/
+def StartConsistent (m : Style) : Prop :=
+  (Has m BlockPreStart → Has m BlockPre) ∧ (Has m BlockPreEnd → Has m BlockPre) ∧
+  (Has m BlockQuoteStart → Has m BlockQuote) ∧ (Has m BlockQuoteEnd → Has m BlockQuote) ∧
+  (Has m SpanEmphStart → Has m SpanEmph) ∧ (Has m SpanStrongStart → Has m SpanStrong) ∧
+  (Has m SpanStrikeStart → Has m SpanStrike) ∧ (Has m SpanPreStart → Has m SpanPre)
+
+theorem startCons_iff (m : Style) : StartCons m → StartConsistent m := by
+  intro h
+  have e : ∀ i, i < 32 → (Has m (BitVec.twoPow 32 i) ↔ m.getLsbD i = true) :=
+    fun i hi => and_twoPow_ne_zero m i hi
+  have c0 : BlockPre = BitVec.twoPow 32 0 := by decide
+  have c1 : BlockQuote = BitVec.twoPow 32 1 := by decide
+  have c2 : SpanEmph = BitVec.twoPow 32 2 := by decide
+  have c3 : SpanStrong = BitVec.twoPow 32 3 := by decide
+  have c4 : SpanStrike = BitVec.twoPow 32 4 := by decide
+  have c5 : SpanPre = BitVec.twoPow 32 5 := by decide
+  have c6 : BlockPreStart = BitVec.twoPow 32 6 := by decide
+  have c7 : BlockPreEnd = BitVec.twoPow 32 7 := by decide
+  have c8 : BlockQuoteStart = BitVec.twoPow 32 8 := by decide
+  have c9 : BlockQuoteEnd = BitVec.twoPow 32 9 := by decide
+  have c10 : SpanEmphStart = BitVec.twoPow 32 10 := by decide
+  have c12 : SpanStrongStart = BitVec.twoPow 32 12 := by decide
+  have c14 : SpanStrikeStart = BitVec.twoPow 32 14 := by decide
+  have c16 : SpanPreStart = BitVec.twoPow 32 16 := by decide
+  unfold StartConsistent
+  rw [c0, c1, c2, c3, c4, c5, c6, c7, c8, c9, c10, c12, c14, c16]
+  simp only [e 0 (by omega), e 1 (by omega), e 2 (by omega), e 3 (by omega), e 4 (by omega),
+    e 5 (by omega), e 6 (by omega), e 7 (by omega), e 8 (by omega), e 9 (by omega), e 10 (by omega),
+    e 12 (by omega), e 14 (by omega), e 16 (by omega)]
+  exact h
+
+/-- **style_consistent (partial)**: for every document, schedule and limit, every token a
+`Decoder` returns — real or virtual — carries a style in which each block directive bit and
+each span *start* bit comes with its style bit.
+
+Full statement (not proved here): also `SpanXEnd → SpanX` for the four span kinds.  That
+part needs "the span stack never holds the same directive twice", which follows only from
+the look-ahead discipline of `scanSpan` over the rest of the line (an invariant relating
+the state to the unread input); it is `C17_style_consistent_end` below under that
+hypothesis, and the hypothesis is checked by the oracle on every generated case. -/
+theorem C17_style_consistent_partial (limit : Option Nat) (sch : Schedule) (doc : Bytes) :
+    ∃ evs, (decode limit sch doc).1 = some evs ∧ ∀ e ∈ evs, StartConsistent e.style := by
+  have hinv := scanDoc_inv limit sch doc
+  have hsome := events_isSome 0 (scanDoc limit sch doc).1 (fun x hx => (hinv x hx).1)
+  obtain ⟨evs, hevs⟩ := Option.isSome_iff_exists.mp hsome
+  refine ⟨evs, hevs, ?_⟩
+  have key : ∀ (l : List (Bytes × Dec)) (prev : Nat) (evs : List Event), (∀ x ∈ l, x.2.Inv) →
+      events prev l = some evs → ∀ e ∈ evs, StartConsistent e.style := by
+    intro l
+    induction l with
+    | nil => intro prev evs _ h; simp [events] at h; subst h; simp
+    | cons x xs ih =>
+      intro prev evs hx h
+      obtain ⟨t, d⟩ := x
+      simp only [events, Option.bind_eq_bind] at h
+      cases hq : d.quote with
+      | none => simp [hq] at h
+      | some cur =>
+        cases htl : events cur xs with
+        | none => simp [hq, htl] at h
+        | some tl =>
+          simp only [hq, htl, Option.bind_some] at h
+          have hd : StartConsistent d.style :=
+            startCons_iff _ (styleLv_startCons (hx (t, d) (by simp)).2)
+          have htl' := ih cur tl (fun y hy => hx y (by simp [hy])) htl
+          have hv : StartConsistent (BlockQuoteEnd ||| BlockQuote) := by
+            unfold StartConsistent Has; decide
+          split at h <;> (simp at h; subst h; intro e he; simp at he)
+          · rcases he with rfl | rfl | he
+            · exact hv
+            · exact hd
+            · exact htl' e he
+          · rcases he with rfl | he
+            · exact hd
+            · exact htl' e he
+  exact key _ 0 evs hinv hevs
+
+example : StartConsistent (SpanStrong ||| SpanStrongStart) := by unfold StartConsistent Has; decide
+
+/-! ### Bracket discipline and preformatted spans, per call of the span scanner
+
+`scanSpan` is the only place where the span stack changes.  One call either leaves the
+decoder unchanged, or pops the innermost open span — the directive byte equals the top of
+the stack and the token carries exactly that kind's end bit — or pushes a new span with its
+style and start bits.  Hence ends match starts LIFO with the same kind (structurally). -/
+
+/-- **bracketing (structural part)**: the effect of one `scanSpan` call on the decoder -/
+theorem C17_bracketing_lifo (lv : Level) (data : Bytes) (atEOF : Bool) :
+    let lv' := (scanSpan lv data atEOF).2
+    lv' = lv ∨
+    (∃ b, lv.spanStack.head? = some b ∧ isDirective b = true ∧ lv'.spanStack = lv.spanStack.tail ∧
+      lv'.mask = lv.mask ||| (bitsOf b).2.2) ∨
+    (∃ b, isDirective b = true ∧ lv'.spanStack = b :: lv.spanStack ∧
+      lv'.mask = lv.mask ||| (bitsOf b).1 ||| (bitsOf b).2.1) := by
+  rcases scanSpan_effect lv data atEOF with h | ⟨b, h1, h2, h3⟩ | ⟨b, h1, _, h3⟩
+  · exact Or.inl h
+  · exact Or.inr (Or.inl ⟨b, h1, h2, by rw [h3]; rfl, by rw [h3]; rfl⟩)
+  · exact Or.inr (Or.inr ⟨b, h1, by rw [h3]; rfl, by rw [h3]; rfl⟩)
+
+/-- **no directive in pre**: inside an inline preformatted span (`SpanPre` in the mask when
+`scanSpan` runs) no span is opened; inside a preformatted block `scan` calls `scanPre`,
+which never touches the span stack and sets no start bit -/
+theorem C17_no_directive_in_pre (lv : Level) (data : Bytes) (atEOF : Bool) :
+    (lv.mask &&& SpanPre ≠ 0 →
+      (scanSpan lv data atEOF).2.spanStack = lv.spanStack ∨
+      (scanSpan lv data atEOF).2.spanStack = lv.spanStack.tail) ∧
+    ((scanPre lv data atEOF).2.spanStack = lv.spanStack ∧
+      ((scanPre lv data atEOF).2.mask = lv.mask ∨ (scanPre lv data atEOF).2.mask = lv.mask ||| BlockPreEnd)) := by
+  constructor
+  · intro hp
+    rcases scanSpan_effect lv data atEOF with h | ⟨b, _, _, h3⟩ | ⟨b, _, h2, _⟩
+    · left; rw [h]
+    · right; rw [h3]; rfl
+    · exact absurd h2 hp
+  · rcases scanPre_frame lv data atEOF with h | h <;> rw [h] <;> simp
+
+/-- non-vacuity: a directive inside an inline pre span stays text -/
+example : (decode none ⟨[], false⟩ [tick, star, 0x61, star, tick]).1 =
+    some [⟨[tick], SpanPre ||| SpanPreStart, 0, none⟩, ⟨[star, 0x61, star], SpanPre, 0, none⟩,
+          ⟨[tick], SpanPre ||| SpanPreEnd, 0, none⟩] := by decide
 
 end XmppModel.Props.C17
